@@ -53,6 +53,8 @@ pub enum CidForm {
     Upper,
     Padded,
     Dup,
+    /// a long value with multi-byte characters at varying byte offsets (k ASCII bytes first)
+    LongNonAscii(u8),
     /// two X-Client-Id headers with DIFFERENT ids: this client's and one that is not on the
     /// allow-list (true: this client's id first)
     DupMixed(bool),
@@ -200,6 +202,7 @@ fn gen_wire_op(r: &mut Rng, n_clients: u8, page: u32, allow_big: bool) -> WireOp
                     CidForm::Absent, CidForm::Empty, CidForm::NonAscii, CidForm::HighBytes, CidForm::TooShort, CidForm::TooLong, CidForm::Garbage,
                     CidForm::Braced, CidForm::Urn, CidForm::Simple, CidForm::Upper, CidForm::Padded, CidForm::Dup,
                     CidForm::DupMixed(true), CidForm::DupMixed(false), CidForm::DupMixed(false),
+                    CidForm::LongNonAscii(0), CidForm::LongNonAscii(1), CidForm::LongNonAscii(2), CidForm::LongNonAscii(35), CidForm::LongNonAscii(33),
                 ])
             }
             1 => {
@@ -266,7 +269,8 @@ pub fn gen_plan(seed: u64, backend: Backend, thorough: bool) -> WirePlan {
     };
     let n = r.range(4, if thorough { 40 } else { 24 }) as usize;
     // at most one 100 MiB body per run, memory backend only (quick), rare
-    let big_slot = if (backend == Backend::Memory && r.chance(1, 40)) || (thorough && backend == Backend::Sqlite && r.chance(1, 400)) { Some(n - 1) } else { None };
+    let _ = thorough;
+    let big_slot = if (backend == Backend::Memory && r.chance(1, 40)) || (backend == Backend::Sqlite && r.chance(1, 60)) { Some(n - 1) } else { None };
     let mut opsv = Vec::new();
     for i in 0..n {
         if r.chance(8, 100) {
@@ -459,6 +463,16 @@ fn build(plan: &WirePlan, w: &World, op: &WireOp, cur_allow: &Option<HashSet<Uui
         CidForm::HighBytes => {
             cid_bad = true;
             headers.push((h, vec![0xff, 0xfe, 0x80, 0x81]))
+        }
+        CidForm::LongNonAscii(k) => {
+            cid_bad = true;
+            let mut v: Vec<u8> = vec![b'a'; k as usize];
+            if k % 2 == 0 {
+                v.extend("é€😀".repeat(12).as_bytes());
+            } else {
+                v.extend(std::iter::repeat(0xffu8).take(40));
+            }
+            headers.push((h, v))
         }
         CidForm::TooShort => {
             cid_bad = true;
